@@ -109,6 +109,7 @@ fn random_case(r: &MmRecipe) -> Option<FwdCase> {
 pub fn dispatch(kind: &str, v: &Value) -> Option<Outcome> {
     match kind {
         "forward-op" => serde_json::from_value::<FwdCase>(v.clone()).ok().map(|c| c.run()),
+        "forward-op-sequence" => serde_json::from_value::<SeqCase>(v.clone()).ok().map(|c| c.run()),
         _ => None,
     }
 }
@@ -207,6 +208,27 @@ pub fn campaigns(ctx: &Ctx) -> Stats {
             f.leaves[1].vals = pattern_vals(pb, 8, i + 1);
             f.leaves[2].vals = pattern_vals(pa + pb, f.leaves[2].vals.len(), i + 2);
             Some(f)
+        }));
+    }
+    // sequences of calls in one thread: the same (rows, inner, cols) with different leading dimensions and flags
+    {
+        let leads: Vec<Vec<Vec<usize>>> = vec![vec![vec![], vec![3]], vec![vec![2], vec![2, 3], vec![]], vec![vec![1], vec![4]], vec![vec![3], vec![1, 3]]];
+        st.merge(ctx.run_indexed("call-sequences", (leads.len() * 4 * 3) as u64, None, |i| {
+            let s = &leads[i as usize % leads.len()];
+            let (ta, tb) = ((i as usize / leads.len()) % 2 == 1, (i as usize / leads.len() / 2) % 2 == 1);
+            let (r, k, c) = [(2, 3, 2), (3, 1, 4), (1, 2, 3)][i as usize / leads.len() / 4];
+            let calls = s
+                .iter()
+                .enumerate()
+                .map(|(n, l)| {
+                    let mut a = l.clone();
+                    a.extend(if ta { [k, r] } else { [r, k] });
+                    let b: Vec<usize> = if tb { vec![c, k] } else { vec![k, c] };
+                    let cfg = MatmulCfg { a, b, ta, tb, c: if n % 2 == 0 { Some(vec![c]) } else { None } };
+                    fwd(&cfg)
+                })
+                .collect();
+            Some(SeqCase { calls })
         }));
     }
     let total = t.pick(20000u64, 400000);
